@@ -67,6 +67,12 @@ func NewEntityAccessorXML(contentType string) EntityReaderWriter {
 
 // accessorAt returns the registered ReaderWriter for this MIME type.
 func (r *entityReaderWriters) accessorAt(mime string) (EntityReaderWriter, bool) {
+	er, _, ok := r.accessorAndKeyAt(mime)
+	return er, ok
+}
+
+// accessorAndKeyAt returns the registered ReaderWriter for this MIME type and the MIME type it is registered for.
+func (r *entityReaderWriters) accessorAndKeyAt(mime string) (EntityReaderWriter, string, bool) {
 	r.protection.RLock()
 	defer r.protection.RUnlock()
 	er, ok := r.accessors[mime]
@@ -82,10 +88,10 @@ func (r *entityReaderWriters) accessorAt(mime string) (EntityReaderWriter, bool)
 			}
 		}
 		if found {
-			return r.accessors[match], true
+			return r.accessors[match], match, true
 		}
 	}
-	return er, ok
+	return er, mime, ok
 }
 
 // entityXMLAccess is a EntityReaderWriter for XML encoding
